@@ -20,6 +20,8 @@ pub enum V {
     List(Vec<V>),
     /// a record: field name -> value
     Rec(BTreeMap<String, V>),
+    /// a floating-point value (sign tests, comparisons)
+    F(f64),
 }
 
 pub struct Machine<'a> {
@@ -51,6 +53,7 @@ fn lit_value(l: &syn::Lit) -> Result<V, String> {
         syn::Lit::Char(c) => V::Char(c.value() as u32),
         syn::Lit::Byte(b) => V::Int(b.value() as i128),
         syn::Lit::Str(s) => V::Str(s.value()),
+        syn::Lit::Float(f) => V::F(f.base10_parse::<f64>().map_err(|e| e.to_string())?),
         other => return Err(format!("literal {}", sm::ts(other))),
     })
 }
@@ -492,6 +495,7 @@ impl<'a> Machine<'a> {
                     (syn::UnOp::Not(_), V::Bool(b)) => Ok(V::Bool(!b)),
                     (syn::UnOp::Deref(_), v) => Ok(v),
                     (syn::UnOp::Neg(_), V::Int(i)) => Ok(V::Int(-i)),
+                    (syn::UnOp::Neg(_), V::F(x)) => Ok(V::F(-x)),
                     (op, v) => Err(format!("unary {} on {:?}", sm::ts(op), v)),
                 }
             }
@@ -561,6 +565,22 @@ impl<'a> Machine<'a> {
                 }
                 let l = self.eval(&b.left)?;
                 let r = self.eval(&b.right)?;
+                if let (V::F(a), V::F(c)) = (&l, &r) {
+                    let (a, c) = (*a, *c);
+                    return Ok(match &b.op {
+                        syn::BinOp::Lt(_) => V::Bool(a < c),
+                        syn::BinOp::Le(_) => V::Bool(a <= c),
+                        syn::BinOp::Gt(_) => V::Bool(a > c),
+                        syn::BinOp::Ge(_) => V::Bool(a >= c),
+                        syn::BinOp::Eq(_) => V::Bool(a == c),
+                        syn::BinOp::Ne(_) => V::Bool(a != c),
+                        syn::BinOp::Add(_) => V::F(a + c),
+                        syn::BinOp::Sub(_) => V::F(a - c),
+                        syn::BinOp::Mul(_) => V::F(a * c),
+                        syn::BinOp::Div(_) => V::F(a / c),
+                        other => return Err(format!("float operator {}", sm::ts(other))),
+                    });
+                }
                 let num = |v: &V| match v {
                     V::Int(i) => Some(*i),
                     V::Char(c) => Some(*c as i128),
@@ -692,7 +712,7 @@ impl<'a> Machine<'a> {
             syn::Expr::MethodCall(mc) => {
                 let recv_txt = sm::tsc(&mc.receiver);
                 let m = mc.method.to_string();
-                if recv_txt == "formatter" || recv_txt == "f" {
+                if (recv_txt == "formatter" || recv_txt == "f") && self.get(&recv_txt).is_none() {
                     match m.as_str() {
                         "write_str" => {
                             if let V::Str(s) = self.eval(&mc.args[0])? {
@@ -755,6 +775,12 @@ impl<'a> Machine<'a> {
                 }
                 if mc.args.is_empty() {
                     match (&recv, m.as_str()) {
+                        (V::F(x), "is_sign_negative") => return Ok(V::Bool(x.is_sign_negative())),
+                        (V::F(x), "is_sign_positive") => return Ok(V::Bool(x.is_sign_positive())),
+                        (V::F(x), "is_nan") => return Ok(V::Bool(x.is_nan())),
+                        (V::F(x), "is_infinite") => return Ok(V::Bool(x.is_infinite())),
+                        (V::F(x), "is_finite") => return Ok(V::Bool(x.is_finite())),
+                        (V::F(x), "abs") => return Ok(V::F(x.abs())),
                         (V::Opt(Some(inner)), "unwrap") => return Ok((**inner).clone()),
                         (V::Opt(None), "unwrap") => return Err("unwrap of None: the interpreted code panics".into()),
                         (V::Opt(o), "is_some") => return Ok(V::Bool(o.is_some())),
@@ -927,6 +953,14 @@ impl<'a> Machine<'a> {
                 }
                 Ok(V::Unit)
             }
+            syn::Expr::Struct(st) if st.rest.is_none() => {
+                // a struct literal is the record of its fields
+                let mut m = BTreeMap::new();
+                for fv in &st.fields {
+                    m.insert(sm::ts(&fv.member), self.eval(&fv.expr)?);
+                }
+                Ok(V::Rec(m))
+            }
             syn::Expr::Break(_) => Err(BREAK_SIGNAL.to_string()),
             syn::Expr::Continue(_) => Err(CONTINUE_SIGNAL.to_string()),
             other => Err(format!("expression `{}`", sm::tsc(other).chars().take(60).collect::<String>())),
@@ -949,6 +983,7 @@ pub fn show_term(v: &V) -> String {
         V::Tuple(t) => format!("({})", t.iter().map(show_term).collect::<Vec<_>>().join(",")),
         V::List(t) => format!("[{}]", t.iter().map(show_term).collect::<Vec<_>>().join(",")),
         V::Rec(m) => format!("{{{}}}", m.iter().map(|(k, v)| format!("{}:{}", k, show_term(v))).collect::<Vec<_>>().join(",")),
+        V::F(x) => format!("{:?}", x),
     }
 }
 
